@@ -15,15 +15,18 @@ LIST = lambda items: {"t": "list", "items": items, "trail": False}
 TUPLE = lambda k, v: {"t": "tuple", "pairs": [[{"v": k, "q": None}, v]], "trail": False}
 
 # declared kind -> [(label, raw AST value, python value for the API path)]
+QSTR = lambda v: {"t": "qstr", "v": v, "q": '"'}
 WRONG = {
-    "number": [("list", LIST([INT(1), INT(2)]), [1, 2]), ("tuple", TUPLE("a", WORD("b")), {"a": "b"}), ("word", WORD("abc"), "abc")],
-    "list:number": [("scalar", INT(3), 3), ("tuple", TUPLE("a", INT(1)), {"a": "1"}), ("bad-item", LIST([INT(1), WORD("abc")]), [1, "abc"]),
+    "number": [("list", LIST([INT(1), INT(2)]), [1, 2]), ("tuple", TUPLE("a", WORD("b")), {"a": "b"}), ("word", WORD("abc"), "abc"), ("empty-string", QSTR(""), ""),
+               ("empty-list", LIST([]), [])],
+    "list:number": [("scalar", INT(3), 3), ("scalar-zero", INT(0), 0), ("empty-string", QSTR(""), ""), ("tuple", TUPLE("a", INT(1)), {"a": "1"}), ("bad-item", LIST([INT(1), WORD("abc")]), [1, "abc"]),
                     ("nested-item", LIST([INT(1), LIST([INT(2)])]), [1, [2]])],
-    "list:result": [("scalar-number", INT(3), 3), ("tuple", TUPLE("a", WORD("b")), {"a": "b"}), ("number-item", LIST([INT(7)]), [7])],
-    "result": [("number", INT(5), 5), ("list", LIST([INT(1)]), [1]), ("float", FLOAT(0.5), 0.5)],
-    "boolean": [("word", WORD("maybe"), "maybe"), ("decimal", FLOAT(0.5), 0.5), ("list", LIST([INT(1)]), [1])],
+    "list:result": [("scalar-number", INT(3), 3), ("scalar-zero", INT(0), 0), ("tuple", TUPLE("a", WORD("b")), {"a": "b"}), ("number-item", LIST([INT(7)]), [7])],
+    "result": [("number", INT(5), 5), ("list", LIST([INT(1)]), [1]), ("float", FLOAT(0.5), 0.5), ("zero", INT(0), 0), ("empty-list", LIST([]), [])],
+    "boolean": [("word", WORD("maybe"), "maybe"), ("decimal", FLOAT(0.5), 0.5), ("list", LIST([INT(1)]), [1]), ("empty-string", QSTR(""), ""), ("empty-list", LIST([]), [])],
     "datatype": [("unknown-name", WORD("Complex"), "Complex"), ("number", INT(4), 4), ("list", LIST([WORD("Float")]), ["Float"])],
-    "tuple": [("number", INT(4), 4), ("word", WORD("abc"), "abc"), ("list", LIST([INT(1), INT(2)]), [1, 2])],
+    "tuple": [("number", INT(4), 4), ("word", WORD("abc"), "abc"), ("list", LIST([INT(1), INT(2)]), [1, 2]), ("zero", INT(0), 0), ("zero-float", FLOAT(0.0), 0.0),
+              ("empty-string", QSTR(""), ""), ("nested-list", LIST([LIST([WORD("a"), WORD("b")])]), [["a", "b"]]), ("word-list", LIST([WORD("x")]), ["x"])],
 }
 
 
@@ -46,6 +49,11 @@ def applicable(model, kinds, req):
             if p in req.get(c["cmd"], ()):
                 sites.append(("missing-param", i, p, None))
         sites.append(("undeclared-param", i, "Bogus_Param", None))
+        for p, k in ks.items():
+            if p not in c["args"]:
+                # an optional declared parameter the base model does not use (Metadata on every command, ...)
+                for label, raw, py in WRONG.get(k, []):
+                    sites.append(("wrong-kind", i, p, label))
         for p, v in c["args"].items():
             k = ks.get(p)
             for label, raw, py in WRONG.get(k, []):
